@@ -280,12 +280,23 @@ pub fn load(image: &[u8], wrapper: Wrapper, rp: &ReaderPlan, limit: Option<u64>,
                 let mut sib = image.to_vec();
                 let k = sib.len() - 1 - (sib.len() / 7);
                 sib[k] ^= 0x01;
+                let mut stamp = None;
                 if std::fs::write(&path, &sib).is_ok() {
+                    stamp = std::fs::metadata(&path).and_then(|m| m.modified()).ok();
                     let _ = catch_unwind(AssertUnwindSafe(|| AsepriteFile::read_file(&path).map(|_| ())));
                     let _ = take_panic();
                 }
+                std::fs::write(&path, image).expect("harness: cannot write temp file");
+                // the rewrite happens within the file system's timestamp granularity (or the file
+                // was restored with its old timestamp): same path, same length, same mtime
+                if let Some(t) = stamp {
+                    if let Ok(f) = std::fs::OpenOptions::new().write(true).open(&path) {
+                        let _ = f.set_modified(t);
+                    }
+                }
+            } else {
+                std::fs::write(&path, image).expect("harness: cannot write temp file");
             }
-            std::fs::write(&path, image).expect("harness: cannot write temp file");
             let r = if wrapper == Wrapper::File {
                 let f = std::fs::File::open(&path).expect("harness: cannot open temp file");
                 alloc::tracked(limit, None, || AsepriteFile::read(f))
